@@ -6,6 +6,7 @@ import (
 
 	"verif/harness/tlcrun"
 	"verif/harness/vk"
+	"verif/harness/world"
 )
 
 // Selftest demonstrates that the machinery is bound and not vacuous:
@@ -64,6 +65,27 @@ func Selftest() int {
 	}
 	expectViolation("Ocsp.tla with Expiry = sliding (every read renews the lifetime)", ocspMut("sliding", "issuer"), "Bounded")
 	expectViolation("Ocsp.tla with KeyBy = subject (subject + serial as cache key)", ocspMut("absolute", "subject"), "KeyRight")
+	expectViolation("Refresher.tla with DropWhenBusy = TRUE (a tick that meets a taken mutex is dropped)", tlcrun.Options{SpecDir: sd, Module: "Refresher", Config: "MC_Refresher_drop.cfg", Workers: 2}, "BoundedRefresh")
+	expectViolation("Refresher.tla with LeakOnSibling = TRUE (cleaning up a failed sibling leaks the refresh mutex)", tlcrun.Options{SpecDir: sd, Module: "Refresher", Config: "MC_Refresher_leak.cfg", Workers: 2}, "Live")
+	expectViolation("LockOrder.tla with Registered = TRUE (repository lock asked for under the entry lock)", tlcrun.Options{SpecDir: sd, Module: "LockOrder", Config: "MC_LockOrder_asis.cfg", Workers: 2}, "Ordered")
+	expectViolation("LockOrder.tla with Registered = TRUE: the deadlock itself", tlcrun.Options{SpecDir: sd, Module: "LockOrder", Workers: 2,
+		Config: "SPECIFICATION Spec\nCONSTANTS\n Registered = TRUE\nINVARIANTS NoDeadlock\nCHECK_DEADLOCK FALSE\n"}, "NoDeadlock")
+	expectOK("LockOrder.tla as the code is (NoDeadlock, Ordered)", tlcrun.Options{SpecDir: sd, Module: "LockOrder", Config: "MC_LockOrder.cfg", Workers: 2})
+	flight := func(merge string) tlcrun.Options {
+		mc := "---- MODULE MCOcspFlight ----\nEXTENDS OcspFlight\nCfgVal == {[cls |-> k, strict |-> [v \\in {\"v1\",\"v2\"} |-> v = \"v2\"], cacheOn |-> b] : k \\in [{\"cA\",\"cB\"} -> {\"good\",\"revoked\",\"http500\"}], b \\in BOOLEAN}\n====\n"
+		return tlcrun.Options{SpecDir: sd, Module: "MCOcspFlight", Workers: 4, Files: map[string][]byte{"MCOcspFlight.tla": []byte(mc)},
+			Config: "SPECIFICATION Spec\nCONSTANTS\n CfgSpace <- CfgVal\n MaxBegins = 3\n Merge = " + merge + "\n Export = FALSE\nPROPERTIES OwnAnswerOnly RevokedRejects StrictNeedsAnswer\nINVARIANTS KeyRight\nCHECK_DEADLOCK FALSE\nVIEW View\n"}
+	}
+	expectViolation("OcspFlight.tla with Merge = TRUE (a query takes over the result of another one in flight)", flight("TRUE"), "OwnAnswerOnly")
+	expectOK("OcspFlight.tla as the code is", flight("FALSE"))
+	dyn := HubCfg{Mode: "prefer_ocsp", Sig: "none", Strict: false, Fetch: "actively", Disk: false, TrustA: false, Conf: "none", Ocsp: "dyncache", Aia: true}
+	expectOK("Revocation.tla with a responder that changes (ocsp = dyncache): all properties + OcacheSound", func() tlcrun.Options {
+		o := hub(dyn, "none")
+		o.Config = strings.Replace(o.Config, "ProvisionAcceptsAcceptable", "ProvisionAcceptsAcceptable OcacheSound", 1)
+		return o
+	}())
+	expectOK("CrlStores.tla (Isolation, StagedStable)", tlcrun.Options{SpecDir: sd, Module: "CrlStores", Workers: 4,
+		Config: "SPECIFICATION Spec\nCONSTANTS\n Ids = {\"a\", \"b\"}\n Slots = {\"s1\", \"s2\"}\n Keys = {\"k1\", \"k2\"}\n Export = FALSE\nINVARIANTS TypeOK\nPROPERTIES Isolation StagedStable\nCHECK_DEADLOCK FALSE\n"})
 	// ---- 2. trace specifications reject corrupted traces -------------------------------------------
 	good := `{"ev":"swap","ver":1}
 {"ev":"lookup","r":"r0","probe":"marker","j":1,"s":1,"e":1,"ans":"revoked","ver":0}
@@ -90,11 +112,43 @@ func Selftest() int {
 	expectOK("TraceMem.tla accepts a flat heap trace", mtr(mem))
 	expectViolation("TraceMem.tla rejects a heap that grows with the entries", mtr(strings.Replace(mem, `"n":2000,"heap":2200`, `"n":2000,"heap":9200`, 1)), "MemBound")
 	expectViolation("TraceMem.tla rejects a counter that jumps more than one block", mtr(strings.Replace(mem, `"n":1000,"heap":2100`, `"n":1500,"heap":2100`, 1)), "Accepted")
+	// hook traces against the transition system of CrlRepo.tla (hooktrace.go)
+	{
+		c := vk.New("C08", "quick")
+		ent := new(int)
+		mk := func(sites ...string) []world.Event {
+			var l []world.Event
+			for i, s := range sites {
+				l = append(l, world.Event{Seq: int64(i + 1), Site: s, Args: []any{nil, ent}})
+			}
+			return l
+		}
+		okTrace := mk("repo.load.tmp", "repo.load.fetched", "repo.load.parsed", "repo.load.accepting", "map.update.replaced", "repo.load.accepted",
+			"repo.refresh.tmp", "repo.refresh.info", "repo.refresh.fetched", "repo.refresh.staged", "repo.refresh.parsed", "repo.refresh.swapping", "repo.swap.locked", "map.update.replaced", "repo.swap.unlocking", "repo.refresh.swapped",
+			"repo.refresh.tmp", "repo.refresh.info", "repo.refresh.fetched", "repo.refresh.staged", "repo.refresh.tmp", "repo.refresh.info")
+		for _, tc := range []struct {
+			name   string
+			log    []world.Event
+			reject string
+		}{
+			{"accepts a first load, a refresh, a refresh that fails while parsing, the start of another", okTrace, ""},
+			{"rejects a store replaced before the list was parsed", mk("repo.load.tmp", "repo.load.fetched", "map.update.replaced"), "map.update.replaced"},
+			{"rejects a refresh that swaps without taking the entry lock", mk("repo.load.tmp", "repo.load.fetched", "repo.load.parsed", "repo.load.accepting", "map.update.replaced", "repo.refresh.tmp", "repo.refresh.info", "repo.refresh.fetched", "repo.refresh.staged", "repo.refresh.parsed", "repo.refresh.swapping", "map.update.replaced"), "map.update.replaced"},
+			{"rejects a refresh of an entry that was never loaded", mk("repo.refresh.tmp"), "repo.refresh.tmp"},
+		} {
+			_, n, rej := checkHookTrace(c, false, tc.log)
+			ok := rej == tc.reject && n > 0
+			fmt.Printf("%-70s %s\n", "hook trace vs CrlRepo.tla "+tc.name, map[bool]string{true: "ok", false: "FAILED (rejected at " + rej + ")"}[ok])
+			if !ok {
+				fail++
+			}
+		}
+	}
 	// ---- 3. coverage: every action of the property configurations is taken ---------------------------
 	for _, cfg := range []struct{ mod, cfg string }{{"CrlStore", "MC_CrlStore_fault.cfg"}, {"CrlReader", "MC_CrlReader_fault.cfg"}, {"CrlRepo", "MC_CrlRepo.cfg"}, {"CrlRepo", "MC_CrlRepo_mem.cfg"}, {"Refresher", "MC_Refresher.cfg"}, {"EntryLocks", "MC_EntryLocks.cfg"}} {
 		res := tlcrun.Run(tlcrun.Options{SpecDir: sd, Module: cfg.mod, Config: cfg.cfg, Workers: 4, Coverage: true})
 		// actions that are disabled by construction in that configuration (covered by the sibling configuration)
-		expectedZero := map[string]bool{"LMapSwap": cfg.cfg == "MC_CrlRepo.cfg"}
+		expectedZero := map[string]bool{"LMapSwap": cfg.cfg == "MC_CrlRepo.cfg", "TickDropped": cfg.mod == "Refresher"}
 		if cfg.cfg == "MC_CrlRepo_mem.cfg" {
 			for _, a := range []string{"LCloseOld", "LCloseNew", "LMvAside", "LMvNew", "LRmOld", "LReopen", "Crash", "Restart"} {
 				expectedZero[a] = true
